@@ -152,6 +152,9 @@ func (d *DHCPv4) DecodeFromBytes(data []byte, df gopacket.DecodeFeedback) error 
 		return InvalidMagicCookie
 	}
 
+	// Set here, not after the option loop: a message without options returns below.
+	d.BaseLayer = BaseLayer{Contents: data}
+
 	if len(data) <= 240 {
 		// DHCP Packet could have no option (??)
 		return nil
@@ -177,8 +180,6 @@ func (d *DHCPv4) DecodeFromBytes(data []byte, df gopacket.DecodeFeedback) error 
 			start += int(o.Length) + 2
 		}
 	}
-
-	d.Contents = data
 
 	return nil
 }
